@@ -177,6 +177,7 @@ package main
 //@   ensures fits: 0 <= result.len && result.begin + result.len <= len(buf)
 //@   ensures progress: result.ttype != New_TokenType_EOF ==> result.len >= 1
 //@   ensures space: result.ttype == New_TokenType_SPACE ==> result.begin == pos
+//@   ensures eof-only-at-the-end: result.ttype == New_TokenType_EOF ==> result.begin == len(buf) && result.len == 0
 //@   ensures C06 folds-blanks-and-comments: blank_at(buf, pos) || comment_at(buf, pos) ==> result.ttype == New_TokenType_SPACE
 //@   ensures eol: result.ttype == New_TokenType_EOL ==> result.len == 1 && result.begin == pos && buf[pos] == '\n'
 
@@ -197,12 +198,14 @@ package main
 //@   ensures after-prev: result.begin >= prev.begin + prev.len || result.begin == len(buf)
 //@   ensures fits: 0 <= result.len && result.begin + result.len <= len(buf)
 //@   ensures progress: result.ttype != New_TokenType_EOF ==> result.len >= 1
+//@   ensures eof-only-at-the-end: result.ttype == New_TokenType_EOF ==> result.begin == len(buf) && result.len == 0
 //@   ensures eol: result.ttype == New_TokenType_EOL ==> result.len == 1 && buf[result.begin] == '\n'
 //@   ensures nonneg: result.begin >= 0
 //@   loop 0:
 //@     invariant fits: 0 <= tk.len && tk.begin + tk.len <= len(buf) && tk.begin >= prev.begin + prev.len
 //@     invariant eol: tk.ttype == New_TokenType_EOL ==> tk.len == 1 && buf[tk.begin] == '\n'
 //@     invariant progress: tk.ttype != New_TokenType_EOF ==> tk.len >= 1
+//@     invariant eof: tk.ttype == New_TokenType_EOF ==> tk.begin == len(buf) && tk.len == 0
 //@     decreases len(buf) - (tk.begin + tk.len) + ite(tk.ttype == New_TokenType_SPACE, 1, 0)
 
 //@ func reinterpretEscape
@@ -556,6 +559,7 @@ package main
 //@   props C15 C08 C07 C16
 //@   requires live: live(ps)
 //@   panics may
+//@   returns adv(ps)
 //@   ensures consumed: ps.tkz.current.ttype == ttype && result == adv(ps)
 //@   ensures frame: result.scope == ps.scope && result.offsideCol == ps.offsideCol && result.tvc == ps.tvc && result.tdctx == ps.tdctx
 //@   ensures live: live(result) && samebuf(result, ps)
@@ -1795,3 +1799,98 @@ package main
 //@   panics never
 //@   ensures context: result.tdctx.tva == ps.tdctx.tva && !result.tdctx.insideTD && result.tdctx.defined == ps.tdctx.defined && result.tdctx.allocedDict == ps.tdctx.allocedDict
 //@   ensures rest: result.tkz == ps.tkz && result.scope == ps.scope && result.offsideCol == ps.offsideCol && result.tvc == ps.tvc
+
+// ---------------------------------------------------------------------------------------------
+// C08, operands: literals are their nodes, () is unit, parentheses only group (the expression inside is
+// returned as it is), a comma inside parentheses makes a tuple of the expressions in order.
+// ---------------------------------------------------------------------------------------------
+
+//@ func parseRecordGen
+//@   trusted
+//@   modifies maps
+//@   panics may
+//@   ensures live: live(ps) ==> live(result.E0) && samebuf(result.E0, ps)
+//@ func parseSliceExpr
+//@   trusted
+//@   modifies maps
+//@   panics may
+//@   ensures live: live(ps) ==> live(result.E0) && samebuf(result.E0, ps)
+//@ func parseUSPropAcc
+//@   trusted
+//@   modifies maps
+//@   panics may
+//@   ensures live: live(ps) ==> live(result.E0) && samebuf(result.E0, ps)
+//@ func parseGoEval
+//@   trusted
+//@   modifies maps
+//@   panics may
+//@   ensures live: live(ps) ==> live(result.E0) && samebuf(result.E0, ps)
+//@ func parseVarRef
+//@   trusted
+//@   modifies maps
+//@   panics may
+//@   ensures live: live(ps) ==> live(result.E0) && samebuf(result.E0, ps)
+
+//@ func parseAtom
+//@   props C08
+//@   modifies maps
+//@   requires live: live(ps)
+//@   requires sub-parser-keeps-the-token-stream: forall p ParseState :: {parseE(p)} live(p) ==> live(parseE(p).E0) && samebuf(parseE(p).E0, p) && parseE(p).E0.tkz.current.begin >= p.tkz.current.begin && (p.tkz.current.ttype != New_TokenType_EOF ==> parseE(p).E0.tkz.current.begin > p.tkz.current.begin)
+//@   panics may
+//@   ensures string-literal: ps.tkz.current.ttype == New_TokenType_STRING ==> result.E0 == adv(ps) && result.E1 == Expr_EStringLiteral(ps.tkz.current.stringVal)
+//@   ensures int-literal: ps.tkz.current.ttype == New_TokenType_INT_IMM ==> result.E0 == adv(ps) && result.E1 == Expr_EIntImm(ps.tkz.current.intVal)
+//@   ensures bool-literals: (ps.tkz.current.ttype == New_TokenType_TRUE ==> result.E0 == adv(ps) && result.E1 == Expr_EBoolLiteral(true)) && (ps.tkz.current.ttype == New_TokenType_FALSE ==> result.E0 == adv(ps) && result.E1 == Expr_EBoolLiteral(false))
+//@   ensures unit: ps.tkz.current.ttype == New_TokenType_LPAREN && adv(ps).tkz.current.ttype == New_TokenType_RPAREN ==> result.E0 == adv(adv(ps)) && result.E1 == New_Expr_EUnit
+//@   ensures live: live(result.E0) && samebuf(result.E0, ps)
+//@   ensures parentheses-only-group: ps.tkz.current.ttype == New_TokenType_LPAREN && adv(ps).tkz.current.ttype != New_TokenType_RPAREN && parseE(adv(ps)).E0.tkz.current.ttype != New_TokenType_COMMA ==> result.E1 == parseE(adv(ps)).E1 && parseE(adv(ps)).E0.tkz.current.ttype == New_TokenType_RPAREN && result.E0 == adv(parseE(adv(ps)).E0)
+
+// ---------------------------------------------------------------------------------------------
+// C16: the list-parsing loops terminate because each step consumes input.  Stated once, on the generic
+// loops: if the element parser strictly advances on live states and the separator step does not go back,
+// the loop terminates (variant: bytes left) and ends in a live state where the end predicate holds.
+// ---------------------------------------------------------------------------------------------
+
+//@ func ParseList2
+//@   props C16
+//@   terminates
+//@   requires live: live(ps)
+//@   requires element-parser-advances: forall p ParseState :: {one(p)} live(p) ==> live(one(p).E0) && samebuf(one(p).E0, p) && one(p).E0.tkz.current.begin >= p.tkz.current.begin && (p.tkz.current.ttype != New_TokenType_EOF ==> one(p).E0.tkz.current.begin > p.tkz.current.begin)
+//@   requires separator-step-does-not-go-back: forall p ParseState :: {nextFunc(p)} live(p) ==> live(nextFunc(p)) && samebuf(nextFunc(p), p) && nextFunc(p).tkz.current.begin >= p.tkz.current.begin
+//@   requires end-of-input-ends-the-list: forall p ParseState :: {endPred(p)} live(p) && p.tkz.current.ttype == New_TokenType_EOF ==> endPred(p)
+//@   panics never
+//@   ensures live: live(result.E0) && samebuf(result.E0, ps) && result.E0.tkz.current.begin >= ps.tkz.current.begin
+//@   ensures at-least-one: len(result.E1) >= 1
+//@   ensures ended: endPred(result.E0)
+//@   loop 0:
+//@     invariant live: live(ps) && samebuf(ps, old(ps)) && ps.tkz.current.begin >= old(ps).tkz.current.begin
+//@     invariant some: len(res) >= 1
+//@     decreases rem(ps)
+
+//@ func ParseList
+//@   props C16
+//@   terminates
+//@   requires live: live(ps)
+//@   requires element-parser-advances: forall p ParseState :: {one(p)} live(p) && !endPred(p) ==> live(one(p).E0) && samebuf(one(p).E0, p) && one(p).E0.tkz.current.begin > p.tkz.current.begin
+//@   panics never
+//@   ensures live: live(result.E0) && samebuf(result.E0, ps)
+//@   ensures ended: endPred(result.E0)
+//@   loop 0:
+//@     invariant live: live(ps) && samebuf(ps, old(ps))
+//@     decreases rem(ps)
+
+// a term (an application f a b ...) ends at a closing token, a separator, a line end, or where a binary
+// operator follows - also when the operator stands at the beginning of the next line
+//@ func isEndOfTerm
+//@   props C08 C06
+//@   requires live: live(ps)
+//@   panics may
+//@   returns ps.tkz.current.ttype == New_TokenType_EOF || ps.tkz.current.ttype == New_TokenType_EOL || ps.tkz.current.ttype == New_TokenType_SEMICOLON || ps.tkz.current.ttype == New_TokenType_RBRACE || ps.tkz.current.ttype == New_TokenType_RPAREN || ps.tkz.current.ttype == New_TokenType_RSBRACKET || ps.tkz.current.ttype == New_TokenType_WITH || ps.tkz.current.ttype == New_TokenType_THEN || ps.tkz.current.ttype == New_TokenType_ELSE || ps.tkz.current.ttype == New_TokenType_COMMA || isbinop(skipeol(ps).tkz.current.ttype)
+
+//@ func parseAtomList
+//@   props C08
+//@   modifies maps
+//@   requires live: live(ps)
+//@   requires sub-parser-keeps-the-token-stream: forall p ParseState :: {parseE(p)} live(p) ==> live(parseE(p).E0) && samebuf(parseE(p).E0, p) && parseE(p).E0.tkz.current.begin >= p.tkz.current.begin && (p.tkz.current.ttype != New_TokenType_EOF ==> parseE(p).E0.tkz.current.begin > p.tkz.current.begin)
+//@   panics may
+//@   ensures at-least-one: len(result.E1) >= 1
+//@   ensures live: live(result.E0) && samebuf(result.E0, ps)
